@@ -133,7 +133,7 @@ func bigGen(g *G, tier string) []M {
 	for _, f := range roundTripFormats {
 		ops = append(ops, M{"op": "filePaths", "f": string(f)})
 	}
-	ops = append(ops, M{"op": "storeWrappers"})
+	ops = append(ops, M{"op": "storeWrappers"}, M{"op": "storeRevisions"})
 	// one document object written, edited by replacing a node object, written again; and chains of
 	// nested components
 	for _, f := range roundTripFormats {
@@ -186,6 +186,9 @@ func ExecBig(op M) (res any) {
 	}
 	if asStr(op["op"]) == "storeWrappers" {
 		return storeWrappers()
+	}
+	if asStr(op["op"]) == "storeRevisions" {
+		return storeRevisions()
 	}
 	if asStr(op["op"]) == "sharedCallOptions" {
 		return sharedCallOptions()
@@ -435,6 +438,83 @@ func filePaths(f formats.Format) any {
 	return M{"problems": problems}
 }
 
+// storeRevisions: what a store writes is a function of the document as it is at the time of the call.
+// One document object is stored, edited (content, then identifier), stored again through the same
+// backend value; every completed store leaves its own identifier's entry holding the document as
+// it was stored, and the entries of other identifiers as they were (C19 round trip, C20 "other
+// identifiers"). Read back through a fresh backend value on the same directory.
+func storeRevisions() any {
+	dir, err := os.MkdirTemp("", "verif-rev-")
+	if err != nil {
+		return "unknown-op"
+	}
+	defer os.RemoveAll(dir)
+	problems := []any{}
+	bad := func(format string, a ...any) { problems = append(problems, fmt.Sprintf(format, a...)) }
+	for _, through := range []string{"backend", "writer"} {
+		sub := filepath.Join(dir, through)
+		backend := &storage.FileSystem{Options: storage.FileSystemOptions{Path: sub}}
+		w := writer.New(writer.WithStoreRetriever(backend))
+		store := func(d *sbom.Document) error {
+			if through == "writer" {
+				return w.Store(d)
+			}
+			return backend.Store(d, &storage.StoreOptions{})
+		}
+		want := map[string]*sbom.Document{}
+		check := func(when string) {
+			fresh := &storage.FileSystem{Options: storage.FileSystemOptions{Path: sub}}
+			for id, d := range want {
+				got, err := fresh.Retrieve(id, &storage.RetrieveOptions{})
+				if err != nil {
+					bad("(%s) %s: the entry of %s does not come back: %v", through, when, id, err)
+				} else if !proto.Equal(got, d) {
+					bad("(%s) %s: the entry of %s holds %q with %d nodes, stored was %q with %d nodes", through, when, id,
+						got.GetMetadata().GetId(), len(got.GetNodeList().GetNodes()), d.Metadata.Id, len(d.NodeList.Nodes))
+				}
+			}
+		}
+		doc := bigDoc(2, 16)
+		other := bigDoc(3, 16)
+		doc.Metadata.Id, other.Metadata.Id = "urn:rev:1", "urn:rev:bystander"
+		for _, d := range []*sbom.Document{other, doc} {
+			if err := store(d); err != nil {
+				bad("(%s) store fails: %v", through, err)
+			}
+			want[d.Metadata.Id] = proto.Clone(d).(*sbom.Document)
+		}
+		check("after the first stores")
+		// the same object, same identifier, more content
+		n := sbom.NewNode()
+		n.Id, n.Name = "added-in-revision-2", "added"
+		doc.NodeList.AddNode(n)
+		if err := store(doc); err != nil {
+			bad("(%s) store of the edited document fails: %v", through, err)
+		}
+		want["urn:rev:1"] = proto.Clone(doc).(*sbom.Document)
+		check("after the same object was edited and stored again")
+		// the same object under a new identifier (a new revision with its own serial number)
+		doc.Metadata.Id = "urn:rev:2"
+		doc.Metadata.Version = "2"
+		if err := store(doc); err != nil {
+			bad("(%s) store of the same object under a new identifier fails: %v", through, err)
+		}
+		want["urn:rev:2"] = proto.Clone(doc).(*sbom.Document)
+		check("after the same object was stored under a new identifier")
+		// and back, with the bystander's object stored in between
+		if err := store(other); err != nil {
+			bad("(%s) store fails: %v", through, err)
+		}
+		doc.Metadata.Id = "urn:rev:1"
+		if err := store(doc); err != nil {
+			bad("(%s) store fails: %v", through, err)
+		}
+		want["urn:rev:1"] = proto.Clone(doc).(*sbom.Document)
+		check("after the object went back to its first identifier")
+	}
+	return M{"problems": problems}
+}
+
 // storeWrappers: Writer.Store / Reader.Retrieve against the backend they wrap
 func storeWrappers() any {
 	dir, err := os.MkdirTemp("", "verif-wrap-")
@@ -505,6 +585,33 @@ func storeWrappers() any {
 		if got, err := r.Retrieve("urn:wrap:generations"); err == nil {
 			bad("the reader returns %q for an entry that was removed from the directory", got.GetMetadata().GetName())
 		}
+	}
+	// readers put together by hand, with a backend and nothing else, called with options of the call
+	// that leave the retrieve options out or give them: a stored entry comes back, an unknown and
+	// a damaged one are errors
+	{
+		_ = os.WriteFile(entryPath(dir, "urn:wrap:damaged"), []byte{0xff, 0xff, 0xff, 0x07, 0x01}, 0o644)
+		for _, rd := range []*reader.Reader{{Storage: backend}, {Storage: backend, Options: &reader.Options{}}} {
+			for _, co := range []*reader.Options{{}, {RetrieveOptions: &storage.RetrieveOptions{}}} {
+				for _, id := range []string{"urn:wrap:b", "urn:wrap:unknown", "urn:wrap:damaged"} {
+					func() {
+						defer func() {
+							if rec := recover(); rec != nil {
+								bad("RetrieveWithOptions(%s) on a hand-built reader (options present: %v, retrieve options of the call present: %v) panicked: %v", id, rd.Options != nil, co.RetrieveOptions != nil, rec)
+							}
+						}()
+						got, err := rd.RetrieveWithOptions(id, co)
+						switch {
+						case id == "urn:wrap:b" && (err != nil || !proto.Equal(got, b)):
+							bad("RetrieveWithOptions on a hand-built reader does not return the stored document (error %v)", err)
+						case id != "urn:wrap:b" && err == nil:
+							bad("RetrieveWithOptions(%s) on a hand-built reader returns no error", id)
+						}
+					}()
+				}
+			}
+		}
+		_ = os.Remove(entryPath(dir, "urn:wrap:damaged"))
 	}
 	// no-clobber configured on the writer (not on the call): the second store of an identifier is
 	// refused and the entry stays what it was
@@ -684,6 +791,42 @@ func rewriteAfterEdit(f formats.Format) any {
 		d.NodeList.AddEdge(&sbom.Edge{Type: sbom.Edge_contains, From: "app", To: []string{"lib"}})
 		return d
 	}
+	// the same with ONE writer for both writes and edits made in place that keep every size: fields of
+	// the same length, an edge type, the root's identifier renamed everywhere
+	for k, edit := range []func(d *sbom.Document){
+		func(d *sbom.Document) { d.NodeList.Nodes[0].Version = "1.0.1" },
+		func(d *sbom.Document) { d.NodeList.Edges[0].Type = sbom.Edge_dependsOn },
+		func(d *sbom.Document) {
+			d.NodeList.Nodes[0].Id = "ap2"
+			d.NodeList.RootElements[0] = "ap2"
+			d.NodeList.Edges[0].From = "ap2"
+		},
+		func(d *sbom.Document) { d.NodeList.Nodes[1].Name = "lic" },
+	} {
+		w := writer.New(writer.WithFormat(f), writer.WithRenderOptions(&native.RenderOptions{Indent: 2}))
+		write := func(d *sbom.Document) ([]byte, error) {
+			buf := nopCloser{&bytes.Buffer{}}
+			err := w.WriteStream(d, buf)
+			return buf.Bytes(), err
+		}
+		doc := build("1.0.0")
+		if _, err := write(doc); err != nil {
+			bad("write fails: %v", err)
+			continue
+		}
+		edit(doc)
+		want := build("1.0.0")
+		edit(want)
+		second, err := write(doc)
+		fresh, err2 := WriteDoc(want, f, 2)
+		if (err == nil) != (err2 == nil) {
+			bad("%s, in-place edit %d: the edited document gives error %v through the writer that wrote it before, the same content written for the first time gives %v", f, k, err, err2)
+			continue
+		}
+		if err == nil && outputDigest(second) != outputDigest(fresh) {
+			bad("%s, in-place edit %d: a document written, edited in place and written again with the same writer differs from the same content written for the first time", f, k)
+		}
+	}
 	for _, victim := range []int{0, 1} {
 		doc := build("1.0.0")
 		first, err := WriteDoc(doc, f, 2)
@@ -830,6 +973,19 @@ func failedWriteThenWrite() any {
 				if err := w.WriteStream(first, &refusingStream{accept: accept}); err == nil {
 					bad("%s: a write to a stream that accepts %d bytes reports success", f, accept)
 				}
+				// first in another format: what the failed write left must not reach any later output
+				for _, g := range roundTripFormats {
+					if g == f {
+						continue
+					}
+					ob := nopCloser{&bytes.Buffer{}}
+					if err := writer.New(writer.WithFormat(g)).WriteStream(second, ob); err != nil {
+						bad("%s: a write in %s after a failed write fails: %v", f, g, err)
+					} else if got, err := (&formats.Sniffer{}).SniffReader(bytes.NewReader(ob.Bytes())); err != nil || got != g {
+						bad("%s: the output written as %s after a failed write is detected as %q (%v)", f, g, got, err)
+					}
+					break
+				}
 				buf := nopCloser{&bytes.Buffer{}}
 				if err := writer.New(writer.WithFormat(f)).WriteStream(second, buf); err != nil {
 					bad("%s: an ordinary write after a failed one fails: %v", f, err)
@@ -915,11 +1071,13 @@ func sniffLong(n int, shape string) any {
 func oracleBig(op M, res any, exec func(M) any) []Finding {
 	var out []Finding
 	name := asStr(op["op"])
-	if name == "filePaths" || name == "storeWrappers" || name == "sharedCallOptions" || name == "failedWriteThenWrite" || name == "rewriteAfterEdit" || name == "deepChain" || name == "copyBig" {
+	if name == "filePaths" || name == "storeWrappers" || name == "storeRevisions" || name == "sharedCallOptions" || name == "failedWriteThenWrite" || name == "rewriteAfterEdit" || name == "deepChain" || name == "copyBig" {
 		what := "file entry points (" + asStr(op["f"]) + ")"
 		switch name {
 		case "storeWrappers":
 			what = "Writer.Store / Reader.Retrieve"
+		case "storeRevisions":
+			what = "revisions of a document stored through one backend"
 		case "sharedCallOptions":
 			what = "call options shared between writers"
 		case "failedWriteThenWrite":
@@ -1119,10 +1277,12 @@ func bigOpProps(op M) []string {
 		return []string{"C12"}
 	case "storeWrappers":
 		return []string{"C19"}
+	case "storeRevisions":
+		return []string{"C19", "C20"}
 	case "sharedCallOptions":
 		return []string{"C06", "C07", "C18"}
 	case "failedWriteThenWrite":
-		return []string{"C01", "C02", "C07"}
+		return []string{"C01", "C02", "C06", "C07"}
 	case "readerReuse":
 		return []string{"C01", "C02", "C05", "C18"}
 	case "sniffLong":
